@@ -867,14 +867,72 @@ func extractLocks(repo string, o *out) {
 		o.lines = append(o.lines, fmt.Sprintf("def condBroadcastsAfterUnlock : Nat := %d", after))
 		_ = total
 	}
-	// pool monitor (C15): one iteration of monitoredConn.monitor reads the connection state once and both
-	// notifies and waits with that same value (`s := conn.GetState(); notify(s); WaitForStateChange(ctx, s)`)
+	// pool monitor (C15): one iteration of monitoredConn.monitor obtains the connection state once, from
+	// `notify(wake)`, and waits with that same value on a context whose cancel function is `wake`
+	// (`w, wake := context.WithCancel(ctx); s := mc.notify(wake); mc.conn.WaitForStateChange(w, s)`); `notify` holds the
+	// GCPMultiEndpoint's read lock from its first statement to its return, reads the state once under it, keeps `wake`
+	// in `mc.wake`, reports the value and returns it (F35: read and report are one step with respect to
+	// UpdateMultiEndpoints' status update); UpdateMultiEndpoints calls `mc.wake()` for every pool after its
+	// SetEndpointAvailability calls, which it makes per MultiEndpoint of the options in the order of that
+	// MultiEndpoint's own endpoint list (F36, F34)
 	{
 		af := parse(filepath.Join(repo, "grpcgcp/gcp_multiendpoint.go"))
 		ok := false
+		readUnderLock := false
 		if fd := funcDeclRecv(af, "monitor"); fd != nil {
-			reads, v := 0, ""
-			notifyOK, waitOK := false, false
+			reads, v, wctx, wake := 0, "", "", ""
+			waitOK, notifyOK := false, false
+			ast.Inspect(fd.Body, func(n ast.Node) bool {
+				switch x := n.(type) {
+				case *ast.AssignStmt:
+					if len(x.Rhs) == 1 {
+						if ce, isCall := x.Rhs[0].(*ast.CallExpr); isCall {
+							if se, isSel := ce.Fun.(*ast.SelectorExpr); isSel {
+								if se.Sel.Name == "notify" && len(x.Lhs) == 1 && len(ce.Args) == 1 {
+									if id, isId := x.Lhs[0].(*ast.Ident); isId {
+										v = id.Name
+									}
+									notifyOK = exprString(ce.Args[0]) == wake && wake != ""
+								}
+								if exprString(ce.Fun) == "context.WithCancel" && len(x.Lhs) == 2 {
+									wctx, wake = exprString(x.Lhs[0]), exprString(x.Lhs[1])
+								}
+							}
+						}
+					}
+				case *ast.CallExpr:
+					if se, isSel := x.Fun.(*ast.SelectorExpr); isSel {
+						switch se.Sel.Name {
+						case "GetState":
+							reads++
+						case "WaitForStateChange":
+							if len(x.Args) == 2 {
+								if id, isId := x.Args[1].(*ast.Ident); isId && id.Name == v && v != "" && exprString(x.Args[0]) == wctx && wctx != "" {
+									waitOK = true
+								}
+							}
+						}
+					}
+				}
+				return true
+			})
+			ok = reads == 0 && waitOK && notifyOK
+		}
+		if fd := funcDeclRecv(af, "notify"); fd != nil && fd.Body != nil && len(fd.Body.List) >= 4 && fd.Type.Params != nil && len(fd.Type.Params.List) == 1 {
+			// mc.gme.mu.RLock(); defer mc.gme.mu.RUnlock(); state := mc.conn.GetState(); mc.wake = wake; mc.reportLocked(state); return state
+			param := ""
+			if len(fd.Type.Params.List[0].Names) == 1 {
+				param = fd.Type.Params.List[0].Names[0].Name
+			}
+			l := fd.Body.List
+			s0, s1 := "", ""
+			if es, isE := l[0].(*ast.ExprStmt); isE {
+				s0 = exprString(es.X)
+			}
+			if ds, isD := l[1].(*ast.DeferStmt); isD {
+				s1 = exprString(ds.Call)
+			}
+			reads, v, reported, returned, locks, keeps := 0, "", false, false, 0, false
 			ast.Inspect(fd.Body, func(n ast.Node) bool {
 				switch x := n.(type) {
 				case *ast.AssignStmt:
@@ -886,31 +944,79 @@ func extractLocks(repo string, o *out) {
 								}
 							}
 						}
+						if exprString(x.Lhs[0]) == "mc.wake" && exprString(x.Rhs[0]) == param && param != "" {
+							keeps = true
+						}
 					}
 				case *ast.CallExpr:
 					if se, isSel := x.Fun.(*ast.SelectorExpr); isSel {
 						switch se.Sel.Name {
 						case "GetState":
 							reads++
-						case "notify":
+						case "reportLocked":
 							if len(x.Args) == 1 {
 								if id, isId := x.Args[0].(*ast.Ident); isId && id.Name == v && v != "" {
-									notifyOK = true
+									reported = true
 								}
 							}
-						case "WaitForStateChange":
-							if len(x.Args) == 2 {
-								if id, isId := x.Args[1].(*ast.Ident); isId && id.Name == v && v != "" {
-									waitOK = true
-								}
-							}
+						case "RLock", "RUnlock", "Lock", "Unlock":
+							locks++
+						}
+					}
+				case *ast.ReturnStmt:
+					if len(x.Results) == 1 {
+						if id, isId := x.Results[0].(*ast.Ident); isId && id.Name == v && v != "" {
+							returned = true
 						}
 					}
 				}
 				return true
 			})
-			ok = reads == 1 && notifyOK && waitOK
+			readUnderLock = s0 == "mc.gme.mu.RLock()" && s1 == "mc.gme.mu.RUnlock()" && locks == 2 && reads == 1 && reported && returned && keeps
 		}
+		o.lines = append(o.lines, fmt.Sprintf("def monitorReadsStateUnderLock : Bool := %v", readUnderLock))
+		wakes, ordered := false, false
+		if fd := funcDeclRecv(af, "UpdateMultiEndpoints"); fd != nil && fd.Body != nil {
+			lastSet, wakePos := token.NoPos, token.NoPos
+			ast.Inspect(fd.Body, func(n ast.Node) bool {
+				if ce, isCall := n.(*ast.CallExpr); isCall {
+					if se, isSel := ce.Fun.(*ast.SelectorExpr); isSel && se.Sel.Name == "SetEndpointAvailability" && ce.Pos() > lastSet {
+						lastSet = ce.Pos()
+					}
+				}
+				// for _, mc := range gme.pools { if mc.wake != nil { mc.wake() } }
+				if rs, isRange := n.(*ast.RangeStmt); isRange && strings.HasSuffix(exprString(rs.X), ".pools") {
+					ast.Inspect(rs.Body, func(m ast.Node) bool {
+						if ce, isCall := m.(*ast.CallExpr); isCall && strings.HasSuffix(exprString(ce.Fun), ".wake") && len(ce.Args) == 0 {
+							wakePos = ce.Pos()
+						}
+						return true
+					})
+				}
+				// for name, meo := range meOpts.MultiEndpoints { me := gme.mes[name]; for _, e := range meo.Endpoints { me.SetEndpointAvailability(e, …) } }
+				if outer, isRange := n.(*ast.RangeStmt); isRange && strings.HasSuffix(exprString(outer.X), ".MultiEndpoints") {
+					ast.Inspect(outer.Body, func(m ast.Node) bool {
+						if inner, isR := m.(*ast.RangeStmt); isR && strings.HasSuffix(exprString(inner.X), ".Endpoints") {
+							ast.Inspect(inner.Body, func(k ast.Node) bool {
+								if ce, isCall := k.(*ast.CallExpr); isCall {
+									if se, isSel := ce.Fun.(*ast.SelectorExpr); isSel && se.Sel.Name == "SetEndpointAvailability" && len(ce.Args) == 2 {
+										if v, isId := inner.Value.(*ast.Ident); isId && exprString(ce.Args[0]) == v.Name {
+											ordered = true
+										}
+									}
+								}
+								return true
+							})
+						}
+						return true
+					})
+				}
+				return true
+			})
+			wakes = wakePos != token.NoPos && lastSet != token.NoPos && wakePos > lastSet
+		}
+		o.lines = append(o.lines, fmt.Sprintf("def statusUpdateWakesMonitors : Bool := %v", wakes))
+		o.lines = append(o.lines, fmt.Sprintf("def statusUpdateInPriorityOrder : Bool := %v", ordered))
 		o.lines = append(o.lines, fmt.Sprintf("def monitorWaitsOnNotifiedState : Bool := %v", ok))
 	}
 	// check-then-act under one lock region (the models take these as single atomic steps):
